@@ -9,7 +9,7 @@ Extraction "model.ml"
   default_capacity max_compact_capacity clone_cap clone_from_cap
   shl_spec shr_spec
   check_contract dlen cmp_kx normalize
-  ctx_add_x ctx_sub_x add_val_val_x add_val_ref_x add_ref_val_x add_ref_ref_x approx_val
+  ctx_add_x ctx_sub_x add_val_val_x add_val_ref_x add_ref_val_x add_ref_ref_x approx_val add_path
   ctx_mul ctx_sqr ctx_cubic repr_div fmul_op fdiv_op fdiv_ctx ctx_max
   canon veqb rha ediv emod
   c15_qbin c15_qdive c15_qdivreme c15_qun c15_qint c15_qmulsign
